@@ -37,7 +37,7 @@ for sd in seeds:
             verdicts.append('%s: %s' % (o, 'VIOLATION' + (' (no-failing-input-found)' if nfi2 else ' with failing input') if rc2 == 1 else ('pass' if rc2 == 0 else 'ERROR rc=%d' % rc2)))
     rows.append((sd, meta.get('needs_to_manifest', '')[:150], '; '.join(verdicts)))
     print(sd, verdicts, '%.0fs' % (time.time() - t), flush=True)
-    with open(os.path.join(ROOT, 'docs', 'SEED_MATRIX.md'), 'w') as f:
+    with open(os.environ.get('SEED_MATRIX_OUT', os.path.join(ROOT, 'docs', 'SEED_MATRIX.md')), 'w') as f:
         f.write('# Seeded changes against the current checks\n\nWritten by `lib/seed_matrix.py` (re-runs every seed; commit of /verif at the time: see git log of this file).\n\n| seed | change | verdicts |\n|---|---|---|\n')
         for r in rows:
             f.write('| %s | %s | %s |\n' % r)
